@@ -63,6 +63,8 @@ def _gen_path(spt, r, dy=True):
                 c = pt()
                 if isinstance(prev, P.QuadraticBezier) and r.random() < 0.5:
                     c = cur + cur - prev.control          # smooth joint, written as T when useSandT
+                elif isinstance(prev, P.CubicBezier) and r.random() < 0.5:
+                    c = cur + cur - prev.control2         # mirrored handle after a curve of the other kind (no shorthand applies)
                 elif r.random() < 0.2:
                     c = cur
                 s = P.QuadraticBezier(cur, c, end)
@@ -70,6 +72,8 @@ def _gen_path(spt, r, dy=True):
                 c1, c2 = pt(), pt()
                 if isinstance(prev, P.CubicBezier) and r.random() < 0.5:
                     c1 = cur + cur - prev.control2
+                elif isinstance(prev, P.QuadraticBezier) and r.random() < 0.5:
+                    c1 = cur + cur - prev.control         # mirrored handle after a curve of the other kind (no shorthand applies)
                 elif r.random() < 0.2:
                     c1 = cur
                 s = P.CubicBezier(cur, c1, c2, end)
@@ -152,6 +156,8 @@ def _rand_float_path(spt, r):
                     c = cur + cur - prev.control
                 elif isinstance(prev, P.QuadraticBezier) and r.random() < 0.3:
                     c = cur + (cur - prev.control)     # smooth, but a different rounding
+                elif isinstance(prev, P.CubicBezier) and r.random() < 0.5:
+                    c = cur + cur - prev.control2      # mirrored across the joint, but after a curve of the OTHER kind: T does not apply
                 s = P.QuadraticBezier(cur, c, end)
             elif kind == 'cubic':
                 c1, c2 = pt(), pt()
@@ -159,6 +165,8 @@ def _rand_float_path(spt, r):
                     c1 = cur + cur - prev.control2
                 elif isinstance(prev, P.CubicBezier) and r.random() < 0.3:
                     c1 = cur + (cur - prev.control2)
+                elif isinstance(prev, P.QuadraticBezier) and r.random() < 0.5:
+                    c1 = cur + cur - prev.control      # mirrored across the joint, but after a curve of the OTHER kind: S does not apply
                 elif r.random() < 0.15:
                     c1 = cur
                 s = P.CubicBezier(cur, c1, c2, end)
